@@ -290,6 +290,20 @@ class Check:
 def replay(path):
     """Re-run a replay file against the current tree and print TLC's verdict."""
     obj = json.load(open(path))
+    if obj.get("kind") == "symbols":
+        from . import checks
+        ck = Check("C20", "quick", 1)
+        try:
+            ck.work.driver_mt("mt_so")
+            syms = checks.writable_symbols(ck)
+        finally:
+            ck.work.cleanup()
+        extra = [x for x in syms if x not in ("polyseed_deps", "reserved_features", "polyseed_mul2_table")]
+        print("writable static symbols of the library: %s" % syms)
+        if extra:
+            print("VIOLATION property=C20 replay=%s" % path)
+            return 1
+        return 0
     if obj.get("kind") == "model":
         work = run.Work("replay")
         res = run.run_model(work, obj["module"], obj["cfg"])
